@@ -10,6 +10,7 @@ import (
 	"os"
 	"strconv"
 	"strings"
+	"time"
 )
 
 var (
@@ -199,34 +200,52 @@ func Param(name string, def int) int {
 	return def
 }
 
+// HangIsViolation declares that every loop reached from here on must stay within the
+// engine's unwinding bound: exceeding it is reported as a violation (non-termination)
+// instead of an inconclusive run. Natively a watchdog turns a hang into "timeout".
+func HangIsViolation() {}
+
 func MapOrder(mode int)      {}
 func PoolMode(mode int)      {}
 func Freeze(root interface{}) {}
 
 // NativeRun executes a harness natively on the recorded vector and prints its outcome.
+// A watchdog (10 s) reports a harness that does not return as "timeout".
 func NativeRun(name string, fn func()) (result string) {
 	load()
-	defer func() {
-		if r := recover(); r != nil {
-			switch x := r.(type) {
-			case assumeFailed:
-				result = "assume-failed"
-			case assertFailed:
-				result = "assert-fail:" + x.label
-			default:
-				result = "panic:" + fmt.Sprint(r)
+	done := make(chan string, 1)
+	go func() {
+		res := "completed"
+		defer func() {
+			if r := recover(); r != nil {
+				switch x := r.(type) {
+				case assumeFailed:
+					res = "assume-failed"
+				case assertFailed:
+					res = "assert-fail:" + x.label
+				default:
+					res = "panic:" + fmt.Sprint(r)
+				}
 			}
-		}
-		for _, t := range Trace {
-			fmt.Println("ZZ-OBSERVE: " + t)
-		}
-		for _, c := range Covered {
-			fmt.Println("ZZ-COVER: " + c)
-		}
-		fmt.Println("ZZ-RESULT: " + result)
+			done <- res
+		}()
+		fn()
 	}()
-	fn()
-	return "completed"
+	select {
+	case result = <-done:
+	case <-time.After(10 * time.Second):
+		result = "timeout"
+		fmt.Println("ZZ-RESULT: " + result)
+		return result
+	}
+	for _, t := range Trace {
+		fmt.Println("ZZ-OBSERVE: " + t)
+	}
+	for _, c := range Covered {
+		fmt.Println("ZZ-COVER: " + c)
+	}
+	fmt.Println("ZZ-RESULT: " + result)
+	return result
 }
 
 // KnownRegion carves a recorded known finding out of a harness: when the finding id is
